@@ -1,0 +1,122 @@
+//go:build verif
+
+// Contracts for the fiat-crypto scalar arithmetic (mod N, the group order), checked by /verif (vcgo).
+// Comment-only; excluded from normal builds.  e4(x) = x[0] + x[1]*W + x[2]*W^2 + x[3]*W^3, W = 2^64,
+// R = 2^256, fmN(x) = x * R^-1 in Z/N.  The `cut` clauses are the per-round Montgomery invariants.
+
+package secp256k1montgomeryscalar
+
+//@ func Uint64ToUint1
+//@   props C02 C17
+//@   ensures result == ite(u == 0, 0, 1)
+//@
+//@ func cmovznzU64
+//@   props C02 C17
+//@   requires arg1 <= 1
+//@   ensures *out1 == ite(arg1 == 0, arg2, arg3)
+//@   modifies out1
+//@
+//@ func Selectznz
+//@   props C02 C17
+//@   requires arg1 <= 1
+//@   ensures out1[0] == ite(arg1 == 0, old(arg2[0]), old(arg3[0]))
+//@   ensures out1[1] == ite(arg1 == 0, old(arg2[1]), old(arg3[1]))
+//@   ensures out1[2] == ite(arg1 == 0, old(arg2[2]), old(arg3[2]))
+//@   ensures out1[3] == ite(arg1 == 0, old(arg2[3]), old(arg3[3]))
+//@   modifies out1
+//@
+//@ func Nonzero
+//@   props C02 C17
+//@   ensures (*out1 == 0) <==> (arg1[0] == 0 && arg1[1] == 0 && arg1[2] == 0 && arg1[3] == 0)
+//@   modifies out1
+//@
+//@ func SetOne
+//@   props C02
+//@   ensures e4(out1) < N && fmN(e4(out1)) == 1
+//@   modifies out1
+//@
+//@ func Msat
+//@   props C02
+//@   ensures evalw(out1) == N
+//@   modifies out1
+//@
+//@ func Add
+//@   props C02
+//@   requires e4(arg1) < N && e4(arg2) < N
+//@   ensures e4(out1) < N
+//@   ensures e4(out1) == old(e4(arg1)) + old(e4(arg2)) - ite(old(e4(arg1)) + old(e4(arg2)) >= N, N, 0)
+//@   ensures fmN(e4(out1)) == fmN(old(e4(arg1))) + fmN(old(e4(arg2)))
+//@   using fm_add_N(e4(out1), old(e4(arg1)), old(e4(arg2)))
+//@   modifies out1
+//@
+//@ func Sub
+//@   props C02
+//@   requires e4(arg1) < N && e4(arg2) < N
+//@   ensures e4(out1) < N
+//@   ensures e4(out1) == old(e4(arg1)) - old(e4(arg2)) + ite(old(e4(arg1)) < old(e4(arg2)), N, 0)
+//@   ensures fmN(e4(out1)) == fmN(old(e4(arg1))) - fmN(old(e4(arg2)))
+//@   using fm_sub_N(e4(out1), old(e4(arg1)), old(e4(arg2)))
+//@   modifies out1
+//@
+//@ func Opp
+//@   props C02
+//@   requires e4(arg1) < N
+//@   ensures e4(out1) < N
+//@   ensures e4(out1) == ite(old(e4(arg1)) == 0, 0, N - old(e4(arg1)))
+//@   ensures fmN(e4(out1)) == -fmN(old(e4(arg1)))
+//@   using fm_sub_N(e4(out1), 0, old(e4(arg1)))
+//@   modifies out1
+//@
+//@ func Mul
+//@   props C02
+//@   requires e4(arg1) < N && e4(arg2) < N
+//@   using prodbound_N(e4(arg1), e4(arg2))
+//@   cut r0: (x39 + x41*W + x43*W2 + x45*W3 + x46*W4)*W == old(arg1[0])*old(e4(arg2)) + x20*N
+//@   cut r1: (x91 + x93*W + x95*W2 + x97*W3 + x99*W4)*W2 == (old(arg1[0]) + old(arg1[1])*W)*old(e4(arg2)) + (x20 + x72*W)*N
+//@   cut r2: (x144 + x146*W + x148*W2 + x150*W3 + x152*W4)*W3 == (old(arg1[0]) + old(arg1[1])*W + old(arg1[2])*W2)*old(e4(arg2)) + (x20 + x72*W + x125*W2)*N
+//@   cut r3: (x197 + x199*W + x201*W2 + x203*W3 + x205*W4)*W4 == old(e4(arg1))*old(e4(arg2)) + (x20 + x72*W + x125*W2 + x178*W3)*N
+//@   cut fin: (x216 + x217*W + x218*W2 + x219*W3) < N && (x216 + x217*W + x218*W2 + x219*W3)*R == old(e4(arg1))*old(e4(arg2)) + (x20 + x72*W + x125*W2 + x178*W3 - ite(x215 == 0, R, 0))*N
+//@   ensures e4(out1) < N
+//@   ensures fmN(e4(out1)) == fmN(old(e4(arg1))) * fmN(old(e4(arg2)))
+//@   using fm_mul_N(e4(out1), old(e4(arg1)), old(e4(arg2)), x20 + x72*W + x125*W2 + x178*W3 - ite(x215 == 0, R, 0))
+//@   modifies out1
+//@
+//@ func Square
+//@   props C02
+//@   requires e4(arg1) < N
+//@   using prodbound_N(e4(arg1), e4(arg1))
+//@   cut r0: (x39 + x41*W + x43*W2 + x45*W3 + x46*W4)*W == old(arg1[0])*old(e4(arg1)) + x20*N
+//@   cut r1: (x91 + x93*W + x95*W2 + x97*W3 + x99*W4)*W2 == (old(arg1[0]) + old(arg1[1])*W)*old(e4(arg1)) + (x20 + x72*W)*N
+//@   cut r2: (x144 + x146*W + x148*W2 + x150*W3 + x152*W4)*W3 == (old(arg1[0]) + old(arg1[1])*W + old(arg1[2])*W2)*old(e4(arg1)) + (x20 + x72*W + x125*W2)*N
+//@   cut r3: (x197 + x199*W + x201*W2 + x203*W3 + x205*W4)*W4 == old(e4(arg1))*old(e4(arg1)) + (x20 + x72*W + x125*W2 + x178*W3)*N
+//@   cut fin: (x216 + x217*W + x218*W2 + x219*W3) < N && (x216 + x217*W + x218*W2 + x219*W3)*R == old(e4(arg1))*old(e4(arg1)) + (x20 + x72*W + x125*W2 + x178*W3 - ite(x215 == 0, R, 0))*N
+//@   ensures e4(out1) < N
+//@   ensures fmN(e4(out1)) == fmN(old(e4(arg1))) * fmN(old(e4(arg1)))
+//@   using fm_mul_N(e4(out1), old(e4(arg1)), old(e4(arg1)), x20 + x72*W + x125*W2 + x178*W3 - ite(x215 == 0, R, 0))
+//@   modifies out1
+//@
+//@ func FromMontgomery
+//@   props C02
+//@   requires e4(arg1) < N
+//@   cut r0: (x20 + x22*W + x24*W2 + x26*W3 + x27*W4)*W == old(arg1[0]) + x2*N
+//@   cut r1: (x54 + x56*W + x58*W2 + x60*W3 + x61*W4)*W2 == old(arg1[0]) + old(arg1[1])*W + (x2 + x36*W)*N
+//@   cut r2: (x88 + x90*W + x92*W2 + x94*W3 + x95*W4)*W3 == old(arg1[0]) + old(arg1[1])*W + old(arg1[2])*W2 + (x2 + x36*W + x70*W2)*N
+//@   cut r3: (x122 + x124*W + x126*W2 + x128*W3 + x129*W4)*W4 == old(e4(arg1)) + (x2 + x36*W + x70*W2 + x104*W3)*N
+//@   cut fin: (x140 + x141*W + x142*W2 + x143*W3) < N && (x140 + x141*W + x142*W2 + x143*W3)*R == old(e4(arg1)) + (x2 + x36*W + x70*W2 + x104*W3 - ite(x139 == 0, R, 0))*N
+//@   ensures e4(out1) < N
+//@   ensures e4(out1) == lift(fmN(old(e4(arg1))))
+//@   using fm_from_N(e4(out1), old(e4(arg1)), x2 + x36*W + x70*W2 + x104*W3 - ite(x139 == 0, R, 0))
+//@   modifies out1
+//@
+//@ func ToMontgomery
+//@   props C02
+//@   requires e4(arg1) < N
+//@   cut r0: (x37 + x39*W + x41*W2 + x43*W3 + x44*W4)*W == old(arg1[0])*R2N + x19*N
+//@   cut r1: (x85 + x87*W + x89*W2 + x91*W3 + x92*W4)*W2 == (old(arg1[0]) + old(arg1[1])*W)*R2N + (x19 + x67*W)*N
+//@   cut r2: (x133 + x135*W + x137*W2 + x139*W3 + x140*W4)*W3 == (old(arg1[0]) + old(arg1[1])*W + old(arg1[2])*W2)*R2N + (x19 + x67*W + x115*W2)*N
+//@   cut r3: (x181 + x183*W + x185*W2 + x187*W3 + x188*W4)*W4 == old(e4(arg1))*R2N + (x19 + x67*W + x115*W2 + x163*W3)*N
+//@   cut fin: (x199 + x200*W + x201*W2 + x202*W3) < N && (x199 + x200*W + x201*W2 + x202*W3)*R == old(e4(arg1))*R2N + (x19 + x67*W + x115*W2 + x163*W3 - ite(x198 == 0, R, 0))*N
+//@   ensures e4(out1) < N
+//@   ensures fmN(e4(out1)) == fn(old(e4(arg1)))
+//@   using fm_to_N(e4(out1), old(e4(arg1)), x19 + x67*W + x115*W2 + x163*W3 - ite(x198 == 0, R, 0))
+//@   modifies out1
